@@ -29,3 +29,5 @@ pub fn __string_ends_with_char(s: &String, c: char) -> (r: bool) ensures r == (s
 pub fn __vec_full<'a>(x: &'a Vec<u8>) -> (r: &'a [u8]) ensures r@ == x@ { &x[..] }
 /// line_parser::extract_exit_code (regex `^\[([0-9]+)\]$` + i32 parse): uninterpreted, as in the parser units
 pub uninterp spec fn exit_code_of(line: Seq<char>) -> Option<i32>;
+#[verifier::external_body]
+pub fn __slice_ends_with(a: &[u8], b: &[u8]) -> (r: bool) ensures r == (a@.len() >= b@.len() && a@.subrange(a@.len() - b@.len(), a@.len() as int) == b@) { a.ends_with(b) }
